@@ -6,7 +6,7 @@ sys.path.insert(0, os.path.join(ROOT, "driver"))
 import registry
 
 LEVEL_TEXT = {
- "C01": "Bounded model checking of the two deterministic links of encrypt/decrypt on the real code: scaling_variant::multiply_add/sub_plain adds exactly round(q*m/t) for every m < t (batching t, t = 2^k, non-ascending primes, short plaintexts; at a 60-bit prime with a 40-bit t in 256-value windows around the 64-bit carry of the numerator), BGV decryption returns the centred phase mod t times the inverse correction factor trimmed to the leading coefficient for EVERY ciphertext (N=2), and (thorough) BFV Decryptor::decrypt returns round(t*phase/q) mod t for EVERY ciphertext and ternary key. The randomised sampling glue and CKKS float encoding are outside (stated). The suite encrypts one random vector per scheme; the solver covers all plaintext values and all ciphertexts inside the bounds.",
+ "C01": "Bounded model checking of the two deterministic links of encrypt/decrypt on the real code: scaling_variant::multiply_add/sub_plain adds exactly round(q*m/t) for every m < t (batching t, t = 2^k, non-ascending primes, short plaintexts; at a 60-bit prime with a 40-bit t in 256-value windows around the 64-bit carry of the numerator), BGV decryption returns the centred phase mod t times the inverse correction factor trimmed to the leading coefficient for EVERY ciphertext (N=2), public-key encryption of zero below the key level reads the key polynomials at the key level's stride (second component = sampled error when pk1 = 0, for every output of a stubbed randomness source), and (thorough) BFV Decryptor::decrypt returns round(t*phase/q) mod t for EVERY ciphertext and ternary key. The randomised sampling glue and CKKS float encoding are outside (stated). The suite encrypts one random vector per scheme; the solver covers all plaintext values and all ciphertexts inside the bounds.",
  "C02": "Bounded model checking, one inductive step per operation on ARBITRARY ciphertexts (not assumed to be well-formed encryptions): add/sub/negate residue-wise for all size pairs, BGV factor balancing (all 256 factor pairs at t=17), BGV tensor product for sizes (2,2),(3,2) (thorough: (2,3) and squaring) against a reference composed from the same word kernels, RNS polynomial kernels position-wise against arithmetic. Phase identities compose over programs of any length. BFV multiplication over the auxiliary base and relinearisation at the first level are not decided (key switching: see C04's lemma).",
  "C03": "Bounded model checking of the scale bookkeeping (product recorded bit-exactly for CKKS multiply and square, quotient by the prime dropped AT THE CIPHERTEXT'S OWN LEVEL for rescale below the first level, drop keeps the scale), of the slot-wise tensor product, and of the refusals (resulting scale does not fit the modulus for square/multiply, mismatched scales for add/sub); decoded complex error bounds (float FFT) are outside.",
  "C04": "Bounded model checking of the Galois machinery: GaloisTool::apply = X -> X^g with signs for every odd g (N<=16), the NTT permutation table is the evaluation-point map, step -> element and default key set, NAF; key switching at a lower chain level (phase_out = phase_in + target*s' + small) for every target under a fixed key (thorough: for every key satisfying the RLWE relation); rotation composition for every step at N=16 and for the steps reaching the +-N/2 NAF digits at N=32, with the automorphism stubbed by a recorder.",
